@@ -68,7 +68,7 @@ def mc_cfg(design, items, lens, seconds, lays, invariants, full=False, announce=
 
 def trace_cfg(nchunks=16):
     out = ["CONSTANTS", " CheckValues = FALSE", " NChunks = %d" % nchunks, " ShortBits = 12", " LongBits = 21",
-           "INIT RInit", "NEXT RNext", "CHECK_DEADLOCK FALSE", "INVARIANT NotRejected", "INVARIANT DomainR"]
+           "ALIAS Shown", "INIT RInit", "NEXT RNext", "CHECK_DEADLOCK FALSE", "INVARIANT NotRejected", "INVARIANT DomainR"]
     out += ["INVARIANT R_%s" % i for i in LINKER_CLAUSES] + ["INVARIANT I_%s" % i for i in CLAUSES + ("AsTranscribed",)]
     return "\n".join(out) + "\n"
 
@@ -409,6 +409,60 @@ def exec_job(ctx, k):
                                                                       for a, b in vecs], "vecs": vecs}}
 
 
+# --- directed jobs: one per listed defect class and per situation the independent reviewers asked for -----
+def directed_jobs():
+    none = {"partial": False, "entry": "", "extra": []}
+    split = {"on": True, "entry": "", "mems": [mem("flash", rvlink.CODE_AT, 0x2000, ["code"]), mem("ram", rvlink.DATA_AT, 0x1000, ["data"])]}
+    out = []
+
+    def job(jid, scripts, lay, run=None, mode="split"):
+        objects = [rvlink.build_object(MARCH, s) for s in scripts]
+        j = {"id": jid, "arch": MARCH, "objects": objects, "lay": lay, "opt": none, "via_text": False, "ctl": set(), "mode": mode,
+             "src": "\n".join("; object %d\n" % i + "\n".join(x if isinstance(x, str) else "<%s>" % x.__qualname__ for x in s)
+                               for i, s in enumerate(scripts))}
+        if run:
+            j["run"] = run
+        out.append(j)
+
+    def calls(vecs):
+        return {"entry": "main", "globals": [("g", 4)], "vecs": vecs,
+                "calls": [{"regs": [[12, rvlink.limbs(a)], [13, rvlink.limbs(b)]], "stk": []} for a, b in vecs]}
+
+    # references to symbols behind shrunk jumps: from a data section in another memory (absolute words), from the same
+    # section (c.j, beq, jal, lui/addi via la), and from a second object merged behind the first
+    prog = ["global main", "global g", "global tail", "section code", "main:", "addi x6, x1, 0", "add x10, x12, x13",
+            rvlink.cbl(1, "f1"), rvlink.cb("L1"), "addi x10, x10, 64", "L1:", "beq x12, x0, L2", rvlink.cbl(1, "f2"), "L2:",
+            rvlink.cb("L3"), "addi x10, x10, 32", "L3:", "la x7, tab", "lw x5, 4(x7)", "addi x1, x6, 0", "jalr x0, x5, 0",
+            "f1:", "addi x10, x10, 3", "jalr x0, x1, 0", "f2:", "slli x10, x10, 1", "jalr x0, x1, 0",
+            "section data", "g:", "dd 7", "tab:", "dcd =f1", "dcd =tail"]
+    tail = ["global tail", "global g", "section code", "tail:", "la x7, g", "lw x5, 0(x7)", "add x10, x10, x5", "sw x10, 0(x7)",
+            "jalr x0, x1, 0"]
+    job("d-refs-behind-holes", [prog, tail], split, calls([[0, 5], [9, -4]]))
+    # data behind code in one memory (the usual flat image): alignment of the section that follows
+    flat = {"on": True, "entry": "", "mems": [mem("flash", rvlink.CODE_AT, 0x2000, ["code", "data"])]}
+    job("d-flat-image", [prog, tail], flat, calls([[3, 4]]), mode="one")
+    # jal x5 (CBl with rd /= ra): the callee returns through x5
+    x5 = ["global main", "global g", "section code", "main:", "addi x6, x1, 0", "add x10, x12, x13", rvlink.cbl(5, "fx"),
+          "addi x10, x10, 1", "la x7, g", "sw x10, 0(x7)", "addi x1, x6, 0", "jalr x0, x1, 0", "fx:", "slli x10, x10, 2",
+          "jalr x0, x5, 0", "section data", "g:", "dd 0"]
+    job("d-jal-x5", [x5], split, calls([[2, 3]]))
+    # a jump into another memory at the edge of the short range, behind a jump that shrinks: its distance grows
+    grow = ["global far", "section code", "a:", rvlink.cb("b"), "b:", rvlink.cb("far"), "ds 4", "section code2", "ds 2", "far:", "ds 4"]
+    lay = {"on": True, "entry": "", "mems": [mem("m0", 0x1000, 0x100, ["code"]), mem("m1", 0x1000 + 4 + 2046 - 2, 0x100, ["code2"])]}
+    job("d-grows-out-of-range", [grow], lay)
+    # ... and at a safe distance (both shrink, the cross-memory one stays in range)
+    lay2 = {"on": True, "entry": "", "mems": [mem("m0", 0x1000, 0x100, ["code"]), mem("m1", 0x1000 + 0x400, 0x100, ["code2"])]}
+    job("d-cross-memory", [grow], lay2)
+    # the edges of the short range inside one section: +2046 / -2048 shrink, +2048 / -2050 must stay long
+    fwd = lambda n: [rvlink.cb("t%d" % n), "ds %d" % (n - 4), "t%d:" % n, "ds 2"]
+    bwd = lambda n: ["u%d:" % n, "ds %d" % n, rvlink.cb("u%d" % n), "ds 2"]
+    edges = ["section code"] + fwd(2046) + ["section code2"] + fwd(2048) + ["section code3"] + bwd(2048) + ["section code4"] + bwd(2050)
+    lay3 = {"on": True, "entry": "", "mems": [mem("m%d" % k, 0x10000 * (k + 1), 0x1000, [n])
+                                               for k, n in enumerate(["code", "code2", "code3", "code4"])]}
+    job("d-short-range-edges", [edges], lay3)
+    return out
+
+
 # --- compiled programs ---------------------------------------------------------------------------
 def compiled_job(ctx, k, one_memory):
     """an IR module from harness/irgen.py (types of at most 32 bits) compiled for riscv:rvc"""
@@ -506,13 +560,18 @@ def judge_traces(ctx, jobs, traces, label):
             key = "C13:NotRejected:%s:%s:%s" % (slug(why), tags[rec["id"]], rec["id"])
             what = "link %s: the specification refuses event %s (%s): %s" % (rec["id"], st.get("l"), c12._evname(rec, st.get("l")), why)
         else:
-            key = "C13:%s:%s:%s" % (e.name, tags[rec["id"]], rec["id"])
+            detail = ""
+            if e.name == "I_StaysInRange":
+                # which transfers left their range: into another section (the listed class) or inside one section
+                u = st.get("unreach")
+                u = sorted(u[1]) if isinstance(u, tuple) else []
+                detail = ("+".join(u) or "none") + ":"
+            key = "C13:%s:%s%s:%s" % (e.name, detail, tags[rec["id"]], rec["id"])
             what = "link %s: clause %s of Relax.tla / Linker.tla fails after do_relaxations (shrunk entries %s)" % (
-                rec["id"], e.name[2:], (st.get("pre") or {}).get("K"))
+                rec["id"], e.name[2:], st.get("shrunk"))
         ctx.violation(key, what, {"id": rec["id"], "clause": e.name, "why": why, "event": st.get("l"), "lay": rec["lay"],
                                   "source": byid[rec["id"]].get("src", "")[:6000], "outcome": c12.classify(rec),
-                                  "sections_after_relaxation": [(s.get("name"), s.get("addr"), s.get("align"), len(s.get("data", [])))
-                                                                for s in (st.get("dst") or {}).get("secs", [])]})
+                                  "sections_after_relaxation_name_addr_align_size": st.get("secs")})
     return res, untranscribed
 
 
@@ -579,7 +638,7 @@ class Engine:
         if ctx.only is None and "M" not in skip:
             model_check(ctx)
         n_struct, n_exec, n_ir = (700, 120, 60) if thorough else (60, 10, 6)
-        jobs = []
+        jobs = directed_jobs()
         for k in range(n_struct):
             j = struct_job(ctx, k)
             if j is not None:
@@ -639,6 +698,6 @@ class Engine:
                 seen.add(key)
                 ctx.violation(key, "%s(%s): the relaxed image ends %s with a0=%s, the unrelaxed image of the same objects %s with a0=%s "
                               "(or the globals differ)" % (j["run"]["entry"], j["run"]["vecs"][av - 1] if isinstance(av, int) else "?",
-                                                           st.get("status"), (st.get("m") or {}).get("x", [None] * 11)[10],
+                                                           st.get("status"), st.get("a0"),
                                                            (st.get("first") or {}).get("status"), (st.get("first") or {}).get("a0")),
                               {"id": j["id"], "source": j["src"][:6000], "args": j["run"]["vecs"], "lay": j["lay"]})
